@@ -43,7 +43,7 @@ type c06hook struct {
 
 func TestC06(t *testing.T) {
 	e := vlib.GetEnv()
-	n := e.Pick(48, 600)
+	n := e.Pick(48, 4000)
 	vlib.RunCases(t, "C06", "startup", n, func(c *vlib.Case) vlib.Result {
 		var res vlib.Result
 		c06run(c, &res)
